@@ -57,6 +57,37 @@ def generate(X):
     for k, f in ua.POWER_MAPPING.items():
         # the two lambdas are affine in the count: record f(0), f(1) (slope/intercept)
         power_map[k.__name__] = [int(f(0)), int(f(1))]
+    # the dispatcher's own branch tuples, by `ast` over the source of `__array_ufunc__`:
+    #  * the `unit_operator in (…)` tuple guarding the block that checks dimensions and rescales the
+    #    second operand (recognised by the `get_conversion_factor` call in its body),
+    #  * the rule replaced by `_divide_units` on a dimension mismatch just before
+    #    (`if unit_operator is X and not u0.same_dimensions_as(u1): unit_operator = _divide_units`),
+    #  * the tuple of the `raise UnitOperationError` sites' innermost guard `unit_operator is Y`
+    #    (the comparison family gets its exceptions there).
+    import ast as _ast
+
+    src = open(os.path.join(X.REPO, "unyt", "array.py"), encoding="utf-8").read()
+    fn = [n for n in _ast.walk(_ast.parse(src)) if isinstance(n, _ast.FunctionDef) and n.name == "__array_ufunc__"][0]
+    rescale_tuple, fallback = None, []
+    for n in _ast.walk(fn):
+        if not isinstance(n, _ast.If):
+            continue
+        t = n.test
+        if (isinstance(t, _ast.Compare) and len(t.ops) == 1 and isinstance(t.ops[0], _ast.In)
+                and isinstance(t.left, _ast.Name) and t.left.id == "unit_operator"
+                and isinstance(t.comparators[0], _ast.Tuple)
+                and any(isinstance(c, _ast.Attribute) and c.attr == "get_conversion_factor" for b in n.body for c in _ast.walk(b))):
+            if rescale_tuple is not None:
+                raise ValueError("two candidate rescale tuples in __array_ufunc__")
+            rescale_tuple = [e.id for e in t.comparators[0].elts]
+        if (isinstance(t, _ast.BoolOp) and isinstance(t.op, _ast.And) and len(n.body) == 1
+                and isinstance(n.body[0], _ast.Assign) and _ast.unparse(n.body[0].targets[0]) == "unit_operator"
+                and "same_dimensions_as" in _ast.unparse(t)):
+            first = t.values[0]
+            if isinstance(first, _ast.Compare) and isinstance(first.ops[0], _ast.Is) and _ast.unparse(first.left) == "unit_operator":
+                fallback.append((_ast.unparse(first.comparators[0]), _ast.unparse(n.body[0].value)))
+    if rescale_tuple is None:
+        raise ValueError("rescale tuple of __array_ufunc__ not found")
     L = X.lstr
     text = (
         X.header()
@@ -76,6 +107,10 @@ def generate(X):
         + f"def clipIsUfunc : Bool := {'true' if clip_is_ufunc else 'false'}\n\n"
         + "/-- the rule functions `__array_ufunc__` compares with by identity, by `__name__` -/\n"
         + "".join(f"def rule{a} : String := {L(v)}\n" for a, v in rule_idents.items())
+        + "\n/-- the `unit_operator in (…)` tuple guarding the dimension check / rescale block of `__array_ufunc__` (ast) -/\n"
+        + "def dispatcherRescaleTuple : List String := [" + ", ".join(L(n) for n in rescale_tuple) + "]\n"
+        + "/-- rules replaced just before that block when the operands' dimensions differ: (rule, replacement) (ast) -/\n"
+        + "def dispatcherMismatchFallback : List (String × String) := [" + ", ".join(f"({L(a)}, {L(b)})" for a, b in fallback) + "]\n"
         + "\n/-- every public ufunc attribute of `numpy` ↦ its `__name__` -/\n"
         + "def npUfuncAliases : List (String × String) := [\n"
         + ",\n".join(f"  ({L(a)}, {L(b)})" for a, b in aliases.items())
@@ -95,4 +130,6 @@ def generate(X):
         "aliases": aliases,
         "meta": meta,
         "power_map": power_map,
+        "rescale_tuple": rescale_tuple,
+        "mismatch_fallback": fallback,
     }
